@@ -875,6 +875,10 @@ impl<RW: QueueRW<T>, T> Stream for &FutInnerRecv<RW, T> {
                     vpoint!(B_BEFORE_WAIT);
                     let queue = &self.reader.queue;
                     if self.wait.fut_wait(count, queue.flag_for(count), &queue.writers) {
+                        // A failed attempt on a shared stream may have pinned a slot for
+                        // a moment; a sink that was refused because of that pin is parked
+                        // and nothing else would tell it the slot is free again.
+                        self.prod_wait.notify_all();
                         return Ok(Async::NotReady);
                     }
                 }
